@@ -313,7 +313,7 @@ var commentAlphabets = []string{
 	"😀 🚀 ✓",
 	" \u0085 ", // characters whose UTF-8 encoding ends in a byte that looks like a Latin-1 space
 	"à … Ġ",    // U+00E0 ends in 0xA0; U+2026 ends in 0xA6; U+0120 ends in 0xA0
-	"ıſŉİẞȺ", // case mapping changes the UTF-8 length of these
+	"ıſŉİẞȺ",   // case mapping changes the UTF-8 length of these
 }
 
 func genComment(t *rapid.T) string {
